@@ -276,8 +276,8 @@ public:
         // We need that distance(first, last) >= 4
         address_type addr(first_);
         for (int i = 0; i < 3; ++i) {
-            // If there's overflow before the last iteration, we're done
-            if (Internals::increment(addr) && i != 2) {
+            // If there's overflow, there are less than 4 addresses
+            if (Internals::increment(addr)) {
                 return false;
             }
         }
